@@ -59,11 +59,11 @@ MAX_RESTARTS = 4           # per batch
 # ---------------------------------------------------------------------------
 
 FIXED_CHARS = ['R', 'C', 'M', '1', '0', "'", '"', '-', '(', ')', ',', ';', '.', '\n', '\x00', ' ', '\t', '\r',
-               '\\', '_', '*', '/', '\x0c']
+               '\\', '_', '*', '/', '\x0c', '%']
 PAL_CHARS = [
     ['a', 'E', 'x', '\xe9', '7', '$', '\u0663'],
     ['b', 'T', 'q', '\xdf', '5', '#', '\xa0'],
-    ['z', 'F', 'e', '\u03bb', '9', '%', '\u2028'],
+    ['z', 'F', 'e', '\u03bb', '9', '&', '\u2028'],
     ['k', 'N', 'o', '\xe5', '3', '@', '\u0661'],
 ]
 PAL_NAMES = [
@@ -91,7 +91,7 @@ def lexemes(seed):
     ident = PAL_NAMES[seed % len(PAL_NAMES)]['ident']
     other = [('CARDINALITY', '1C'), ('COMMA', ','), ('FRACTION', '1.5'), ('GUID', UUID % 1), ('ID', ident),
              ('LPAREN', '('), ('MINUS', '-'), ('NUMBER', '1'), ('RPAREN', ')'), ('RELID', 'R1'),
-             ('SEMICOLON', ';'), ('STRING', "'s'")]
+             ('SEMICOLON', ';'), ('STRING', "'%s'")]      # (a string that is a format directive)
     return [(k, k) for k in KEYWORDS] + other
 
 
